@@ -29,12 +29,12 @@ Proof. reflexivity. Qed.
 (* ------------------------------------------------------------------------------------------------ *)
 (* kind 1950 *)
 Theorem mon_owning_decodes ins : mon_owning ins = true ->
-  exists size bufsz posted class has len tok exp_tok bytes_ok u_len hres,
-    ins = [size; bufsz; posted; class; has; len; tok; exp_tok; bytes_ok; u_len; hres].
+  exists size bufsz posted class has len tok exp_tok bytes_ok u_len hres pending,
+    ins = [size; bufsz; posted; class; has; len; tok; exp_tok; bytes_ok; u_len; hres; pending].
 Proof.
   intros H. unfold mon_owning in H.
-  destruct ins as [|x0 [|x1 [|x2 [|x3 [|x4 [|x5 [|x6 [|x7 [|x8 [|x9 [|x10 [|x11 r]]]]]]]]]]]]; try discriminate H.
-  now exists x0, x1, x2, x3, x4, x5, x6, x7, x8, x9, x10.
+  destruct ins as [|x0 [|x1 [|x2 [|x3 [|x4 [|x5 [|x6 [|x7 [|x8 [|x9 [|x10 [|x11 [|x12 r]]]]]]]]]]]]]; try discriminate H.
+  now exists x0, x1, x2, x3, x4, x5, x6, x7, x8, x9, x10, x11.
 Qed.
 
 (* MEANING.  One poll of a queue of `size` buffers of `bufsz` bytes:
@@ -45,8 +45,8 @@ Qed.
                 has made and the driver has not consumed (completion order)
      bytes_ok : the slice is, byte for byte, what the device wrote into that buffer (the first u_len bytes)
      u_len    : the length the device recorded for that completion;  hres : what the caller's handler answered (2 = error) *)
-Theorem mon_owning_meaning size bufsz posted class has len tok exp_tok bytes_ok u_len hres :
-  mon_owning [size; bufsz; posted; class; has; len; tok; exp_tok; bytes_ok; u_len; hres] = true ->
+Theorem mon_owning_meaning size bufsz posted class has len tok exp_tok bytes_ok u_len hres pending :
+  mon_owning [size; bufsz; posted; class; has; len; tok; exp_tok; bytes_ok; u_len; hres; pending] = true ->
   (* fully stocked again after EVERY poll, whatever it returned *)
   posted = size
   (* no panic *)
@@ -55,15 +55,21 @@ Theorem mon_owning_meaning size bufsz posted class has len tok exp_tok bytes_ok 
      than the buffer holds *)
   /\ (class = 0 -> has = 1 -> tok = exp_tok /\ len = u_len /\ len <= bufsz /\ bytes_ok = 1)
   (* an error only for a recorded length above the buffer or a handler error *)
-  /\ (class = 1 -> bufsz < u_len \/ hres = 2).
+  /\ (class = 1 -> bufsz < u_len \/ hres = 2)
+  (* no completion is swallowed: Ok(None) while a completion was pending only if the handler declined it (or its recorded
+     length does not fit, which is the error case above) *)
+  /\ (class = 0 -> has <> 1 -> pending = 1 -> hres = 0 -> bufsz < u_len).
 Proof.
   unfold mon_owning. intros H. apply andb_prop in H. destruct H as [Hp H]. apply N.eqb_eq in Hp.
   split; [exact Hp|].
   destruct (N.eqb_spec class 0) as [E0|E0].
-  - subst class. split; [now left|]. split; [|intros; discriminate].
-    intros _ Hh. subst has. cbn [N.eqb Pos.eqb andb] in H. lia.
+  - subst class. split; [now left|]. destruct (N.eqb_spec has 1) as [Eh|Eh].
+    + subst has. cbn [N.eqb Pos.eqb andb] in H. split; [intros _ _; lia|]. split; [intros; discriminate|]. intros _ Hn; congruence.
+    + cbn [andb] in H. split; [intros _ Hh; congruence|]. split; [intros; discriminate|].
+      intros _ _ Hpe Hh0. subst pending hres. cbn [N.eqb Pos.eqb andb] in H.
+      destruct (N.leb_spec u_len bufsz) as [Hl|Hl]; [discriminate H|exact Hl].
   - cbn [andb] in H. destruct (N.eqb_spec class 1) as [E1|E1]; [|discriminate H].
-    split; [now right|]. split; [intros; contradiction|]. intros _. lia.
+    split; [now right|]. split; [intros; contradiction|]. split; [intros _; lia|]. intros; contradiction.
 Qed.
 
 (* ---- completeness: the model's own poll ---- *)
@@ -145,34 +151,36 @@ Theorem mon1950_holds_of_model s chains h bufsz u_idx u_id u_len addr ae uf hres
   exists chains' h', Reach s' chains' h' /\ Stocked s' chains' bufsz
     /\ mon_owning [q_size s; bufsz; lenN chains'; res_class o; poll_has o; poll_len o; w16 u_id;
                    (if q_last_used s =? w16 u_idx then 0 else w16 u_id); poll_has o;
-                   (if (res_class o =? 1) || (poll_has o =? 1) then w32 u_len else 0); hres] = true.
+                   (if q_last_used s =? w16 u_idx then 0 else w32 u_len); hres;
+                   (if q_last_used s =? w16 u_idx then 0 else 1)] = true.
 Proof.
   intros HR Hst Hb0 Hb32 Hh Hconf Hrun.
   pose proof (owning_poll_size s bufsz u_idx u_id u_len addr ae uf hres) as Hsz. rewrite Hrun in Hsz. cbn [fst snd] in Hsz.
   destruct (poll_stocked s chains h bufsz u_idx u_id u_len addr ae uf hres o s' evs HR Hst Hb0 Hb32 Hrun) as (P1 & _ & P3).
   destruct (N.eq_dec (q_last_used s) (w16 u_idx)) as [E|E].
   - destruct (P1 E) as (-> & -> & ->). exists chains, h. split; [exact HR|]. split; [exact Hst|].
-    destruct Hst as [_ Hlen]. unfold mon_owning. cbn [res_class poll_has poll_len N.eqb Pos.eqb andb orb].
+    destruct Hst as [_ Hlen]. unfold mon_owning. rewrite E, !N.eqb_refl. cbn [res_class poll_has poll_len N.eqb Pos.eqb andb orb negb].
     rewrite Hlen, N.eqb_refl. reflexivity.
   - destruct (P3 E (Hconf E)) as (Eo & _ & chains' & h' & HR' & Hst'). exists chains', h'.
     split; [exact HR'|]. split; [exact Hst'|].
     destruct Hst' as [_ Hlen']. unfold mon_owning. rewrite Hlen', Hsz, N.eqb_refl. cbn [andb].
     replace (q_last_used s =? w16 u_idx) with false by (symmetry; now apply N.eqb_neq).
     subst o. destruct (N.ltb_spec bufsz (w32 u_len)) as [Hl|Hl].
-    + cbn [res_class poll_has poll_len N.eqb Pos.eqb andb orb]. apply N.ltb_lt in Hl. rewrite Hl. reflexivity.
+    + cbn [res_class poll_has poll_len N.eqb Pos.eqb andb orb]. reflexivity.
     + unfold handler_result. destruct (N.eqb_spec hres 0) as [H0|H0].
       * cbn [res_class poll_has poll_len N.eqb Pos.eqb andb orb]. rewrite !N.eqb_refl. cbn [andb].
         apply N.leb_le in Hl. rewrite Hl. reflexivity.
-      * destruct (N.eqb_spec hres 1) as [H1|H1]; cbn [res_class poll_has poll_len N.eqb Pos.eqb andb orb]; [reflexivity|].
-        replace (hres =? 2) with true by lia. apply orb_true_r.
+      * destruct (N.eqb_spec hres 1) as [H1|H1]; cbn [res_class poll_has poll_len N.eqb Pos.eqb andb orb].
+        { subst hres. cbn [N.eqb Pos.eqb andb negb]. reflexivity. }
+        replace (hres =? 2) with true by lia. reflexivity.
 Qed.
 
 (* AUDIT witness: a completion was pending, the handler would have answered Some, yet the poll returned Ok(None) having
-   consumed and re-posted the buffer (an event silently dropped): the line has no field saying that something was pending,
-   and the verdict is true *)
-Example mon_owning_accepts_dropped_event :
-  mon_owning [4; 8; 4; 0; 0; 0; 1; 1; 0; 0; 0] = true.
-Proof. reflexivity. Qed.
+   consumed and re-posted the buffer (an event silently dropped). As first written the line had no field saying that something
+   was pending and the verdict was true; the line now carries `pending` and the recorded length, and the verdict is false *)
+Example mon_owning_rejects_dropped_event :
+  mon_owning [4; 8; 4; 0; 0; 0; 1; 1; 0; 5; 0; 1] = false /\ mon_owning [4; 8; 4; 0; 0; 0; 1; 1; 0; 5; 1; 1] = true.
+Proof. split; reflexivity. Qed.
 
 (* ------------------------------------------------------------------------------------------------ *)
 (* kind 1951 *)
